@@ -859,7 +859,47 @@ func checkDirectionConstants(rep reporter) {
 // ---------------------------------------------------------------------------
 // tables
 
+// checkVerticalOrientation: the per-script vertical orientation lookup agrees with a
+// linear scan of its table for every script of the script table (and a few values no
+// script has); scripts the table does not list are fully sideways without exceptions.
+func checkVerticalOrientation(d *refData, st *stats, rep reporter) {
+	table := ucd.VerifUprightOrMixedScripts()
+	scripts := map[uint32]bool{0: true, 1: true, 0xFFFFFFFF: true}
+	for _, sr := range d.scripts {
+		scripts[uint32(sr.Script)] = true
+	}
+	for _, e := range table {
+		sc, _, _ := e.VerifFields()
+		scripts[sc] = true
+	}
+	for sc := range scripts {
+		got := ucd.LookupVerticalOrientation(language.Script(sc))
+		want := ucd.ScriptVerticalOrientation{}
+		found := false
+		for _, e := range table {
+			if s2, _, _ := e.VerifFields(); s2 == sc {
+				want, found = e, true
+				break
+			}
+		}
+		gs, gm, ge := got.VerifFields()
+		st.c("vertical-orientation-lookups")
+		if found {
+			st.c("vertical-orientation: script listed in the table")
+			if got != want {
+				_, wm, _ := want.VerifFields()
+				rep("C20/vertical-orientation-lookup", fmt.Sprintf("LookupVerticalOrientation(%s) = {script %s, sideways %v, exceptions %v}; the table entry of that script says sideways %v",
+					language.Script(sc), language.Script(gs), gm, ge != nil, wm), Witness{Kind: "table"})
+			}
+		} else if gs != sc || !gm || ge != nil {
+			rep("C20/vertical-orientation-lookup", fmt.Sprintf("LookupVerticalOrientation(%s), a script the table does not list, = {script %s, sideways %v, exceptions %v}; documented default: fully sideways",
+				language.Script(sc), language.Script(gs), gm, ge != nil), Witness{Kind: "table"})
+		}
+	}
+}
+
 func checkTables(d *refData, st *stats, rep reporter) {
+	checkVerticalOrientation(d, st, rep)
 	type set struct {
 		prop  string
 		tabs  []*unicode.RangeTable
